@@ -6,7 +6,9 @@
     transfers), whether the implementation ACCEPTED it, and the implementation's state observed
     after it: every order, commitment and payment read back from the real exchange store, every
     hold from the real hold store, the balances from the real bank, the vesting locks from the
-    real accounts.  An observation has exactly the shape of a model [state].
+    real accounts -- an observation has exactly the shape of a model [state] -- plus what the hold
+    module's GetHolds gRPC query reports for every account (asked on the history's own context, in
+    lower- or UPPER-case bech32).
 
     prop:* tags evaluate the property on the implementation's own observations only;
     corr:* tags compare the model (run from the initial observation) with the implementation.
@@ -29,7 +31,8 @@ Open Scope list_scope.
 Open Scope Z_scope.
 
 Inductive case :=
-| CHist (exact : bool) (accts denoms : list Z) (init : state) (steps : list (op * bool * state))
+| CHist (exact : bool) (accts denoms : list Z) (init : state)
+        (steps : list (op * bool * state * list (key2 * Z)))
 | CGenesis (g : state) (accepted : bool).   (* InitGenesis of hold + exchange on the records of [g] *)
 
 Definition universe (accts denoms : list Z) : list key2 :=
@@ -58,6 +61,12 @@ Definition delta_ok (u : list key2) (prev : state) (o : op) (accepted : bool) (o
     hold_of ob a d - hold_of prev a d =? (if accepted then reserved_delta prev o a d else 0))
     (u ++ map fst (holds ob) ++ map fst (holds prev)).
 
+(** "the amount REPORTED as on hold": what the hold module's GetHolds query answers for every
+    account of the universe ([q]) is what the hold store contains. *)
+Definition reported_ok (u : list key2) (q : list (key2 * Z)) (ob : state) : bool :=
+  forallb (fun k => zget k q =? hold_of ob (fst k) (snd k)) (u ++ map fst q ++
+    filter (fun k => existsb (fun k' => fst k' =? fst k) u) (map fst (holds ob))).
+
 (** ** Model versus implementation. *)
 Definition same_holds (u : list key2) (m ob : state) : bool :=
   forallb (fun k => hold_of m (fst k) (snd k) =? hold_of ob (fst k) (snd k))
@@ -78,13 +87,14 @@ Definition result_accepts (r : result) : bool := match r with ROk => true | _ =>
 (** One step: (starting observation, previous observation, model state before, operation,
     accepted by the implementation, observation after). *)
 Definition check_step (exact : bool) (u : list key2) (init : state)
-    (x : state * state * op * bool * state) : list string :=
-  let '(prev, m, o, accepted, ob) := x in
+    (x : state * state * op * bool * state * list (key2 * Z)) : list string :=
+  let '(prev, m, o, accepted, ob, q) := x in
   let '(m', r) := step m o in
   (if exact then tag (hold_eq_obligations u ob) "prop:hold_eq_obligations"
    else tag (surplus_kept u init ob) "prop:hold_surplus_changed") ++
   tag (hold_le_balance u ob) "prop:hold_le_balance" ++
   tag (delta_ok u prev o accepted ob) "prop:hold_delta_is_reserved_amount" ++
+  tag (reported_ok u q ob) "prop:hold_reported_by_query" ++
   tag (negb accepted || result_accepts r) "corr:accept" ++
   tag (accepted || negb (result_accepts r)) "corr:wrongly_rejected" ++
   tag (same_holds u m' ob) "corr:holds" ++
@@ -92,11 +102,11 @@ Definition check_step (exact : bool) (u : list key2) (init : state)
   tag (same_records u m' ob) "corr:records" ++
   tag (same_vest u m' ob) "corr:vesting_lock_changed".
 
-Fixpoint walk (prev m : state) (steps : list (op * bool * state))
-  : list (state * state * op * bool * state) :=
+Fixpoint walk (prev m : state) (steps : list (op * bool * state * list (key2 * Z)))
+  : list (state * state * op * bool * state * list (key2 * Z)) :=
   match steps with
   | [] => []
-  | (o, acc, ob) :: r => (prev, m, o, acc, ob) :: walk ob (fst (step m o)) r
+  | (o, acc, ob, q) :: r => (prev, m, o, acc, ob, q) :: walk ob (fst (step m o)) r
   end.
 
 Definition check (c : case) : list string :=
